@@ -208,6 +208,12 @@ func genCase(r *vrun.Run, idx int) caseSpec {
 	if idx%10 == 0 {
 		hostileAt = -1 // all benign
 	}
+	// every twelfth case: nothing hostile at the top level, recursive limits, the hostile name sits inside a nested archive
+	nestedOnly := idx%12 == 7
+	if nestedOnly {
+		hostileAt = -1
+		c.Limits = []string{"default-recursive", "tight"}[rng.IntN(2)]
+	}
 	seen := map[string]bool{}
 	for i := 0; i < n; i++ {
 		ns := genName(rng, "out", i == hostileAt)
@@ -229,11 +235,11 @@ func genCase(r *vrun.Run, idx int) caseSpec {
 		}
 	}
 	// nested archives whose inner names are hostile (recursive limits make the library expand them)
-	if rng.IntN(4) == 0 {
+	if rng.IntN(4) == 0 || nestedOnly {
 		c.Nested = 1 + rng.IntN(3)
 		inner := []zipgen.Entry{zipgen.E("ok.txt", data())}
 		h := genName(rng, "out", true)
-		c.Names = append(c.Names, nameSpec{Name: h.Name, Class: "nested:" + h.Class, Hostile: true})
+		c.Names = append(c.Names, nameSpec{Name: h.Name, Class: "nested:" + h.Class, Hostile: true, Escapes: h.Escapes})
 		inner = append(inner, zipgen.E(h.Name, data()))
 		for d := 1; d < c.Nested; d++ {
 			inner = []zipgen.Entry{zipgen.E("lvl.txt", data()), {Name: fmt.Sprintf("n%d.zip", d), Nested: inner, Declared: -1}}
@@ -297,6 +303,9 @@ func limitsFor(name string) filesystem.ILimits {
 	}
 	return filesystem.NoLimits()
 }
+
+// recursiveLimits: the limits of that name make the library expand nested archives.
+func recursiveLimits(name string) bool { return name == "default-recursive" || name == "tight" }
 
 func under(p, root string) bool {
 	return p == root || strings.HasPrefix(p, root+string(filepath.Separator))
@@ -533,7 +542,12 @@ func runCase(r *vrun.Run, c caseSpec, scratch string) {
 			}
 			continue
 		}
-		if n.Escapes && !strings.HasPrefix(n.Class, "nested:") && i < len(c.Entries) {
+		// (an escaping name inside a nested archive counts when the limits make the library expand nested archives)
+		nestedJudged := strings.HasPrefix(n.Class, "nested:") && recursiveLimits(c.Limits)
+		if nestedJudged {
+			r.Obs("escaping_entries_inside_nested_archives_judged_for_error_kind", 1)
+		}
+		if n.Escapes && (!strings.HasPrefix(n.Class, "nested:") || nestedJudged) && (i < len(c.Entries) || nestedJudged) {
 			if kindConflict(c.Names[:i], c.Prepop) {
 				// the entries before the escaping one cannot all be extracted (a name used both for a file and
 				// for a directory): the call legitimately stops there with another error.
